@@ -3,10 +3,13 @@
 package absnfs
 
 import (
+	"fmt"
 	"testing"
 	"time"
 
 	"verif.local/lib/evid"
+	"verif.local/lib/refs"
+	"verif.local/lib/xdrw"
 )
 
 // C02: namespace operations refine a POSIX tree model; caches are transparent.
@@ -73,6 +76,44 @@ func TestVerif_C04(t *testing.T) {
 			rec.Sample(map[string]any{"config": tr.cfgNames(), "ops": tr.ops})
 		}
 		tr.close()
+	}
+	// MNT with spellings of one path: every handle for the directory must report the same
+	// fileid and type as LOOKUP from the root does
+	for _, cfg := range []vfTreeCfg{all[0], all[len(all)-1]} {
+		fs := refs.New()
+		fs.PlantDir("/d", 0755, 0, 0)
+		fs.PlantDir("/d/e", 0755, 0, 0)
+		srv, err := vfNewSrv(fs, cfg.opts)
+		if err != nil {
+			rec.Infra(err.Error())
+			return
+		}
+		c := srv.client()
+		root, _ := c.mnt("/")
+		l, _ := c.lookup(root, "d")
+		if l == nil || l.Status != 0 || !l.Obj.Present {
+			rec.Infra("lookup d")
+			return
+		}
+		want := l.Obj.A
+		for _, sp := range []string{"/d", "/d/", "//d", "/d/.", "/./d", "/d/e/..", "/d//", "/../d"} {
+			rec.Eval(1)
+			_, m, err := c.mount(1, (&xdrw.W{}).Str(sp).B)
+			if err != nil || m == nil || m.Status != 0 {
+				rec.Distinct("MNT-spelling|" + sp + "|refused")
+				continue
+			}
+			g, err := c.getattr(vfFH(m.FH))
+			if err != nil || g == nil || g.Status != 0 {
+				rec.Violate("C04/mnt-handle-unusable", fmt.Sprintf("MNT %q returned a handle whose GETATTR fails", sp), nil)
+				continue
+			}
+			if g.Attr.Fileid != want.Fileid || g.Attr.Type != want.Type {
+				rec.Violate("C04/fileid-inconsistent/MNT-non-canonical-path", fmt.Sprintf("the handle from MNT %q reports fileid %d type %d for /d; LOOKUP(/, d) reports fileid %d type %d", sp, g.Attr.Fileid, g.Attr.Type, want.Fileid, want.Type), nil)
+			}
+			rec.Distinct("MNT-spelling|" + sp + "|ok")
+		}
+		srv.Close()
 	}
 	rec.MinDistinct = 30
 }
